@@ -656,6 +656,9 @@ impl<'tcx> Cx<'tcx> {
         f.push(("argc", J::Num(body.arg_count as i128)));
         if matches!(kind, DefKind::Fn | DefKind::AssocFn) {
             f.push(("vis", J::Str(format!("{:?}", tcx.visibility(did)))));
+            // the function's own generic parameters, in the order call sites list their generic arguments
+            let ident = ty::GenericArgs::identity_for_item(tcx, did);
+            f.push(("gp", self.gargs(ident)));
         }
         let mut locals = Vec::new();
         for (_l, d) in body.local_decls.iter_enumerated() {
